@@ -496,7 +496,7 @@ func ruleC10(c *Ctx, r *Report) {
 	if nEff == 0 {
 		r.OK("C10-R3", "Encrypt:effect-scan", c.Pos(enc.Pos()), fmt.Sprintf("%d package functions reachable from Encrypt call no time/randomness/environment source", len(reach)))
 	}
-	keyG := c.GlobalVar("encryptionKey")
+	keyG := c.GlobalByRole("encryptionKey")
 	if keyG == nil {
 		r.Undecided("C10-R3", "global:encryptionKey", "-", "key global not found")
 	} else {
